@@ -3470,6 +3470,10 @@ def cli_main():
     except AssemblerError as e:
         raise SystemExit(e)
 
+    # Intel HEX addresses are 32 bits wide: the whole image has to fit
+    if args.hex_offset and not (0 <= offset and offset + len(binary) <= 2**32):
+        raise SystemExit('hex offset out of range: {}'.format(args.hex_offset))
+
     if args.verbose:
         for k, v in constants.items():
             log.info('constant: {:<25} = 0x{:08x} ({})'.format(k, v, v))
